@@ -450,6 +450,9 @@ func CalculateBestCacheSize(argb []uint32, quality int, refs *BackwardRefs, cach
 	litOff := 0
 	for i := 0; i < numHistos; i++ {
 		ls := histogramNumCodes(i)
+		// The slab may be reused from a previous encode: clear the fixed-size
+		// count arrays too (resetStats only resets the cached costs).
+		histoSlab[i] = Histogram{}
 		histoSlab[i].Literal = litSlab[litOff : litOff+ls : litOff+ls]
 		histoSlab[i].paletteCodeBits = i
 		histoSlab[i].resetStats()
